@@ -100,10 +100,6 @@ def branch_deviation(Pin, Rin, Pout, Rout):
     epos = erad = eline = 0.0
     for k in range(m + 1):
         want, (rlo, rhi) = at_arc(Pin, Rin, k * L / m)
-        if k == 0:
-            rlo = rhi = float(Rin[0])
-        if k == m:
-            rlo = rhi = float(Rin[-1])
         epos = max(epos, float(np.sqrt(((np.asarray(Pout[k], dtype=np.float64) - want) ** 2).sum())))
         r = float(Rout[k])
         erad = max(erad, rlo - r, r - rhi, 0.0)
@@ -262,12 +258,22 @@ def check_branch_resampler(rep, spec):
     if spec["op"] == "linear" and len(o) != spec["n"]:
         rep(carrier, "branch-endpoints-kept", spec, f"{len(o)} points", f"{spec['n']} points")
         return
+    if len(o) == 1 and spec["op"] == "isometric" and L <= TOL:
+        # a zero-length branch: both end points are the same position, one sample there carries them
+        if float(np.abs(o[0, :3] - Pin[0]).max()) > TOL or min(abs(o[0, 3] - x) for x in Rin) > TOL:
+            rep(carrier, "branch-endpoints-kept", spec, f"single point {o[0].tolist()}", f"position {Pin[0].tolist()} with one of the radii {Rin.tolist()}")
+        return
     if len(o) < 2:
         rep(carrier, "branch-endpoints-kept", spec, f"{len(o)} point(s): {o.tolist()}", "both end points")
         return
     e0 = float(np.abs(o[0, :3] - Pin[0]).max())
     e1 = float(np.abs(o[-1, :3] - Pin[-1]).max())
-    r0, r1 = abs(o[0, 3] - Rin[0]), abs(o[-1, 3] - Rin[-1])
+    # Radii are a function of arc length.  Where a zero-length first / last segment gives several input nodes the
+    # same arc length as an end point, the radius there is double-valued and any of those nodes' radii is a
+    # correct "linear interpolation along the branch" (the property fixes end *points*; see DESIGN.md section 9).
+    S = arc_lengths(Pin)
+    r0 = min(abs(o[0, 3] - Rin[k]) for k in range(len(Rin)) if S[k] <= TOL)
+    r1 = min(abs(o[-1, 3] - Rin[k]) for k in range(len(Rin)) if S[k] >= L - TOL)
     if max(e0, e1) > TOL:
         rep(carrier, "branch-endpoints-kept", spec, f"ends at {o[0, :3].tolist()} and {o[-1, :3].tolist()}", f"{Pin[0].tolist()} and {Pin[-1].tolist()}", variant="position")
     elif max(r0, r1) > TOL:
